@@ -370,6 +370,84 @@ def r8_affine_ring_pos_pairs(idx, r):
         raise AnalysisError("no grid with an affine (ring, position) numbering found (ThetaRZGrid expected)")
 
 
+def r9_minimum_rings(idx, r):
+    """'the least number of rings holding n cells is exact' for Cartesian grids: getMinimumRings and getPositionsInRing are
+    evaluated exhaustively (E6) for n = 1..300, with and without a centre cell: the answer R must satisfy
+    cells(1..R) >= n > cells(1..R-1)."""
+    from ..minieval import MiniEval, Raised
+
+    c = idx.cls("armi.reactor.grids.cartesian.CartesianGrid")
+    g, p = (c.methods.get(x) for x in ("getMinimumRings", "getPositionsInRing")) if c is not None else (None, None)
+    if g is None or p is None:
+        raise AnchorMissing("CartesianGrid.getMinimumRings / getPositionsInRing")
+    for through in (True, False):
+        def hook(call, args, through=through):
+            d = dotted(call.func)
+            if d == "self._isThroughCenter":
+                return through
+            if d == "self.getPositionsInRing" and args is not None:
+                v, _ = MiniEval(call_hook=hook).run(p.node, {p.params()[1]: args[0]})
+                return v
+            return None
+        cap = lambda ring: MiniEval(call_hook=hook).run(p.node, {p.params()[1]: ring})[0]
+        bad = None
+        for n in range(1, 301):
+            try:
+                R, _ = MiniEval(call_hook=hook).run(g.node, {g.params()[1]: n})
+            except Raised as e:
+                bad = (n, f"raises {e}")
+                break
+            tot, prev = sum(cap(k) for k in range(1, R + 1)), sum(cap(k) for k in range(1, R))
+            if not (tot >= n > prev):
+                bad = (n, f"answers {R} rings, but rings 1..{R - 1} already hold {prev} cells and 1..{R} hold {tot}")
+                break
+        r.require(bad is None, f"cartesian:{'through-centre' if through else 'offset'}:exact-for-1..300", g,
+                  msg=(f"getMinimumRings({bad[0]}) {bad[1]}" if bad else ""))
+
+
+def r10_reduce_keeps_offset(idx, r):
+    """'a grid rebuilt from its stored constructor arguments gives the same coordinates': reduce() may drop the offset
+    only when EVERY component is zero. The deciding expression is evaluated for all 8 zero/non-zero patterns."""
+    import itertools
+
+    f = idx.method(SG, "reduce")
+    if f is None:
+        raise AnchorMissing("StructuredGrid.reduce")
+    st = next((x for x in walk_local(f.node) if isinstance(x, ast.Assign) and norm(x.targets[0]) == "offset" and isinstance(x.value, ast.IfExp)), None)
+    if st is None:
+        raise AnalysisError("reduce: `offset = None if ... else tuple(self._offset)` not found")
+    ife = st.value
+    none_in_body = isinstance(ife.body, ast.Constant) and ife.body.value is None
+
+    def ev(e, bits):
+        if isinstance(e, ast.UnaryOp) and isinstance(e.op, ast.Not):
+            return not ev(e.operand, bits)
+        if isinstance(e, ast.Call):
+            d = dotted(e.func) or ""
+            tgt = None
+            if isinstance(e.func, ast.Attribute) and e.func.attr in ("any", "all") and "offset" in norm(e.func.value).lower():
+                tgt, how = bits, e.func.attr
+            elif d in ("any", "all", "np.any", "np.all") and e.args and "offset" in norm(e.args[0]).lower():
+                tgt, how = bits, d.split(".")[-1]
+            if tgt is not None:
+                return any(tgt) if how == "any" else all(tgt)
+        if isinstance(e, ast.Compare) and len(e.ops) == 1 and isinstance(e.ops[0], (ast.Is, ast.IsNot)) and isinstance(e.comparators[0], ast.Constant) and e.comparators[0].value is None:
+            return isinstance(e.ops[0], ast.IsNot)  # the offset array always exists
+        if isinstance(e, ast.BoolOp):
+            vals = [ev(v, bits) for v in e.values]
+            return all(vals) if isinstance(e.op, ast.And) else any(vals)
+        raise AnalysisError(f"reduce: `{norm(e)[:60]}` outside the evaluated fragment")
+    wrong = []
+    for bits in itertools.product((False, True), repeat=3):
+        t = ev(ife.test, bits)
+        dropped = t if none_in_body else not t
+        if dropped != (not any(bits)):
+            wrong.append(bits)
+    r.require(not wrong, "offset-dropped-only-when-all-zero", f, node=st,
+              msg=f"`{norm(st)[:80]}` drops the offset for the non-zero pattern(s) {wrong[:3]} (x, y, z non-zero?): a grid shifted along one or two axes only - every Cartesian "
+                  "grid without a centre cell: (w/2, h/2, 0) - is rebuilt at the origin")
+
+
 def run(idx, chk):
     chk.explanation = (
         "C07: hex unit steps extracted as exact matrices over Q(sqrt3)[pitch]; neighbour vectors of length pitch in counter-clockwise 60-degree steps for "
@@ -391,3 +469,7 @@ def run(idx, chk):
     chk.run_rule("R07.6", "labels: same separator and field order on both sides, and the separator cannot occur inside a rendered field", lambda r: r6_labels(idx, r), floor=3, necessary="labels and indices are mutually inverse")
     chk.run_rule("R07.8", "theta-R-Z (affine) ring/position numbering: getIndicesFromRingAndPos o getRingPos is the identity", lambda r: r8_affine_ring_pos_pairs(idx, r), floor=1,
                  necessary="'in every grid the maps between cell indices and (ring, position) numbering are mutually inverse'")
+    chk.run_rule("R07.9", "Cartesian getMinimumRings is exact for n = 1..300, with and without a centre cell (exhaustive evaluation)", lambda r: r9_minimum_rings(idx, r), floor=2,
+                 necessary="'the least number of rings holding n cells is exact'")
+    chk.run_rule("R07.10", "reduce() keeps the offset unless all three components are zero (8-pattern truth table)", lambda r: r10_reduce_keeps_offset(idx, r), floor=1,
+                 necessary="'a grid rebuilt from its stored constructor arguments gives the same coordinates ... for every index'")
